@@ -1,4 +1,5 @@
-\* quick tier: the whole case space is model-checked; a stratified sample is emitted for replay
+\* thorough tier: larger case space (both recipient accounts active, a third wallet's address requested,
+\* owner and foreign finalize, sends that were never locked); larger stratified sample for replay
 CONSTANTS
   Dev = {"LateLockTrustsReply", "StrippedUnnoticed", "LockTrustsSlate"}
   Amts = {1000, 1001, 59975, 60000, 70000}
@@ -7,17 +8,17 @@ CONSTANTS
   Srcs = {"", "a1"}
   ActIs = {"a0", "a1"}
   ActFs = {"a0", "a1"}
-  LateLocks = {"late", "S1", "S2"}
-  Reqs = {"w2:a0", "w2:a1"}
+  LateLocks = {"late", "S1", "S2", "none"}
+  Reqs = {"w2:a0", "w2:a1", "w3:a0"}
   Dests = {"", "a1"}
-  ActRs = {"a0"}
+  ActRs = {"a0", "a1"}
   Tams = {"none", "strip", "nosig", "junk", "otherkey", "otherkey_raddr", "amount", "exc_spart", "exc_rpart", "exc_cb", "sender", "raddr", "saddr", "saddr_sig"}
-  FApis = {FALSE}
+  FApis = {FALSE, TRUE}
   Forks = TRUE
   MultiMut = TRUE
-  NPer = 2
-  NAny = 1
-  NHonest = 2
+  NPer = 40
+  NAny = 12
+  NHonest = 120
 SPECIFICATION Spec
 INVARIANT Inv_Sound
 INVARIANT Inv_Mutants
